@@ -156,7 +156,8 @@ def gen_date(rng, fi, cal, allow_yy=True):
         if names_ok(fi, "MMMM"): mk.append("MMMM")
     mkind = rng.choice(mk)
     dkind = rng.choice(["d", "dd"])
-    parts = [ykind, mkind, dkind]
+    noday = rng.random() < 0.15          # month/year only: the day comes from the template value (1)
+    parts = [ykind, mkind] if noday else [ykind, mkind, dkind]
     dk = [k for k in ("ddd", "dddd") if names_ok(fi, k)]
     text = mkind in ("MMM", "MMMM")
     if dk and rng.random() < 0.25:
@@ -171,7 +172,7 @@ def gen_date(rng, fi, cal, allow_yy=True):
         out += lit_after(rng, prev, p) + p
     era_text = "g" in ykind
     info_last = parts[-1]
-    info = {"y": ykind, "c": withc, "numeric_only": not text and not withc and not era_text, "padded": ykind in ("uuuu", "yyyy") and mkind == "MM" and dkind == "dd", "last": info_last}
+    info = {"y": ykind, "c": withc, "numeric_only": not text and not withc and not era_text, "padded": ykind in ("uuuu", "yyyy") and mkind == "MM" and dkind == "dd" and not noday, "last": info_last, "noday": noday}
     return out, info
 
 
@@ -183,6 +184,15 @@ def rep_date(rng, cal, info):
         yr = rng.choice([cal.min_year, cal.max_year, cal.min_year + 1, rng.randint(cal.min_year, cal.max_year), rng.randint(cal.min_year, cal.max_year)])
         if info["y"] == "yyyy" and yr < 1: yr = 1 - yr if 1 - yr <= cal.max_year else 1
     m = rng.randint(1, cal.get_months_in_year(yr)); d = rng.choice([1, cal.get_days_in_month(yr, m), rng.randint(1, cal.get_days_in_month(yr, m))])
+    if info.get("noday"):
+        # the pattern has no day field: the parsed value takes the template value's day (ISO 2000-01-01 when the calendar is read from the text)
+        d = 1 if info.get("c") else date_template(cal).day
+        for _ in range(20):
+            if d <= cal.get_days_in_month(yr, m):
+                break
+            m = rng.randint(1, cal.get_months_in_year(yr))
+        else:
+            d = min(d, cal.get_days_in_month(yr, m))
     return LocalDate(yr, m, d, cal)
 
 
